@@ -96,9 +96,8 @@ Proof.
     apply finish_tasks_le in F. split_all.
     assert (T1 : TInv (set_tasks s l')).
     { eapply (TInv_sub _ _ T); [|reflexivity|reflexivity|noopen_close]. setters.
-      intros t' Ht'. destruct (F t' Ht') as (t & Ht & E1 & E2). apply in_map_iff in Ht.
-      destruct Ht as (t0 & E0 & Ht0). exists t0. split; auto.
-      destruct (t_peer t0 =? p); subst t; cbn in *; split; congruence. }
+      intros t' Ht'. destruct (F t' Ht') as (t & Ht & E1 & E2). apply ungate_in in Ht.
+      destruct Ht as (t0 & Ht0 & E3 & E4 & _). exists t0. split; auto. split; congruence. }
     unfold run_shutdowns. match goal with |- context [if ?b then _ else _] => destruct b end; auto.
     now apply TInv_on_shutdown.
   - split_all; try (TInv_close T; fail). apply TInv_on_shutdown. TInv_close T.
@@ -194,9 +193,8 @@ Proof.
     apply finish_tasks_le in F. split_all.
     assert (K1 : SKInv (set_tasks s l')).
     { eapply (SK_sub _ _ K); [|setters; lia|sink_src|sink_src]. setters. apply tle2_of_le.
-      intros t' Ht'. destruct (F t' Ht') as (t & Ht & E1 & E2). apply in_map_iff in Ht.
-      destruct Ht as (t0 & E0 & Ht0). exists t0. split; auto.
-      destruct (t_peer t0 =? p); subst t; cbn in *; split; congruence. }
+      intros t' Ht'. destruct (F t' Ht') as (t & Ht & E1 & E2). apply ungate_in in Ht.
+      destruct Ht as (t0 & Ht0 & E3 & E4 & _). exists t0. split; auto. split; congruence. }
     unfold run_shutdowns. match goal with |- context [if ?b then _ else _] => destruct b end; auto.
     now apply SK_on_shutdown.
   - split_all; try (SK_close K; fail). apply SK_on_shutdown. SK_close K.
